@@ -48,8 +48,10 @@ Theorem C06_unknown_rejected :
 Proof. exact ipcp_unknown_rejected. Qed.
 Print Assumptions C06_unknown_rejected.
 
-(* The three result lists are an order-preserving partition of the request by a per-option
-   classification that does not depend on the previous peer state. *)
+(* Structural lemma (not a property clause by itself; [ipcp_kind] mirrors the branch structure of the
+   handler): the three result lists are an order-preserving partition of the request by a per-option
+   classification that does not depend on the previous peer state.  The clauses above and the packet-level
+   theorems below are what is derived from it. *)
 Theorem C06_ipcp_partition :
   forall c p opts,
   r_ack (fst (ipcp_req c p opts)) = filter (fun o => is_kack (ipcp_kind c o)) opts /\
@@ -57,6 +59,22 @@ Theorem C06_ipcp_partition :
   r_rej (fst (ipcp_req c p opts)) = filter (fun o => is_krej (ipcp_kind c o)) opts.
 Proof. exact ipcp_partition. Qed.
 Print Assumptions C06_ipcp_partition.
+
+(* DNS options (t = 129 with the configured primary, t = 131 with the configured secondary server), every
+   configuration: a 4-byte proposal of 0.0.0.0 is answered with a Nak carrying the configured server when one
+   is configured; every Nak'd DNS option carries exactly the configured server; any other 4-byte proposal is
+   acknowledged unchanged (the BNG does not police the subscriber's own DNS choice). *)
+Theorem C06_ipcp_dns :
+  forall c p os r p' t loc,
+  ipcp_req c p os = (r, p') ->
+  (t = 129%N /\ loc = ic_dns1 c) \/ (t = 131%N /\ loc = ic_dns2 c) ->
+  (forall o, In o (r_ack r) -> o_type o = t ->
+     In o os /\ length (o_data o) = 4%nat /\ (all_zero (o_data o) = true -> dns_usable loc = false)) /\
+  (forall n, In n (r_nak r) -> o_type n = t -> n = ip_option t loc /\ dns_usable loc = true) /\
+  (forall o, In o os -> o_type o = t -> length (o_data o) = 4%nat -> all_zero (o_data o) = true ->
+     dns_usable loc = true -> In (ip_option t loc) (r_nak r) /\ ~ In o (r_ack r)).
+Proof. exact ipcp_dns_policy. Qed.
+Print Assumptions C06_ipcp_dns.
 
 (* On the wire, in every FSM state and for every byte string received as a Configure-Request: a
    Configure-Ack is emitted only if the option area parses, it echoes exactly the parsed request with the
@@ -233,9 +251,9 @@ Print Assumptions C06_ipv6cp_wire_bad.
 
 (* Event alphabet of a session history (sev): the subscriber's Configure-Request (any identifier, any bytes),
    its Configure-Ack / Nak / Reject for our own request carrying our last identifier (verbatim or with
-   arbitrary bytes), and a re-authentication (new AAA answer, registry answers as oracle, startNCP again).
-   Not in the alphabet: Terminate, Code-Reject, timeouts, Down/Close, answers with a stale identifier
-   (the FSM drops those before the handler runs: fsm.go rcaEvent/rcnEvent first line).
+   arbitrary bytes) or a stale identifier (dropped), its Terminate-Request, the restart time-out in
+   Stopping, and a re-authentication (new AAA answer, registry answers as oracle, startNCP again).
+   Not in the alphabet: Code-Reject, Terminate-Ack, the other time-outs, Down/Close (automaton: C05).
 
    Repaired behaviour, both owners (PPPoE, LNS), every AAA answer (none, usable, 0.0.0.0, IPv6 literal, ...),
    every outcome of pool allocation / address reservation (oracle) at start and at every re-authentication,
@@ -477,16 +495,16 @@ Theorem C06_ipcp_history :
 Proof. exact ipcp_history. Qed.
 Print Assumptions C06_ipcp_history.
 
-(* What an IPCP object remembers as the negotiated peer address (peer.Address) is after every history an
-   address it would acknowledge again under the configuration in force — in particular never an address
-   accepted under a previous assignment (SetPeerAddress forgets it, /repo 95b0af2).  A shortcut "acknowledge
-   what was acknowledged before" (seeded change C06_m1) is therefore behaviourally neutral on the fixed tree. *)
+(* What an IPCP object created by NewIPCP remembers as the negotiated peer address (PeerConfig().Address,
+   the value its owners adopt on IPCP up) is, after every history, an address it would acknowledge again under
+   the configuration in force — in particular never an address accepted under a previous assignment
+   (SetPeerAddress forgets it, /repo 95b0af2).  peer.Address is real state of the Go object (printed and
+   compared as P= in every ipcp/hi case), not a ghost of the model. *)
 Theorem C06_ipcp_remembered_is_acceptable :
-  forall ops s,
-  (forall x, pp_addr (io_peer s) = Some x -> ipcp_kind (io_cfg s) (mkopt 3 x) = KAck) ->
-  forall x, pp_addr (io_peer (iobj_run repaired s ops)) = Some x ->
-            ipcp_kind (io_cfg (iobj_run repaired s ops)) (mkopt 3 x) = KAck.
-Proof. exact iobj_run_remembered. Qed.
+  forall c ops x,
+  pp_addr (io_peer (iobj_run repaired (mkiobj c ipeer0) ops)) = Some x ->
+  ipcp_kind (io_cfg (iobj_run repaired (mkiobj c ipeer0) ops)) (mkopt 3 x) = KAck.
+Proof. exact iobj_fresh_remembered. Qed.
 Print Assumptions C06_ipcp_remembered_is_acceptable.
 
 (* Same for one LCP object (requests interleaved with Ack/Nak/Reject of our own options — which may change
@@ -569,7 +587,8 @@ Print Assumptions C06_ipcp_nonvacuous.
 Example C06_session_nonvacuous :
   let s := sess_run repaired (sess_start repaired PPPoE (Some (v4prefix ++ [10;0;0;5])%N) (mkorc None true))
              [EvReq 1 [3;6;0;0;0;0]; EvReq 2 []; EvAck; EvNak [3;6;6;6;6;6;129;6;1;1;1;1]; EvRej [129;6;1;1;1;1];
-              EvReq 3 [3;6;10;0;0;5]; EvReauth (Some (v4prefix ++ [10;0;0;9])) (mkorc None true); EvReq 4 [3;6;10;0;0;5];
+              EvReq 3 [3;6;10;0;0;5]; EvAck; EvTermReq 9; EvStoppingTimeout; EvStale;
+              EvReauth (Some (v4prefix ++ [10;0;0;9])) (mkorc None true); EvReq 4 [3;6;10;0;0;5];
               EvReq 5 [3;6;10;0;0;9]; EvAckW [3;6;6;6;6;6]]%N in
   s_open s = true /\ s_fsm s = 9%N /\ to4o (s_addr s) = Some [10;0;0;9]%N /\
   pp_addr (s_peer s) = Some [10;0;0;9]%N.
